@@ -17,6 +17,7 @@ import (
 	"sort"
 	"strings"
 	"sync"
+	"syscall"
 	"time"
 
 	"github.com/grafana/cog/verifx/vx"
@@ -24,7 +25,7 @@ import (
 
 // GenGoCache is the build cache used for generated code. Generated packages
 // are unique per run, so compiling them in the user's default cache would
-// grow it without bound; this one is wiped every genCacheRuns workspaces.
+// grow it without bound; a new generation is started every genCacheRuns workspaces.
 var GenGoCache = func() string {
 	if d := os.Getenv("VERIF_GEN_GOCACHE"); d != "" {
 		return d
@@ -34,27 +35,67 @@ var GenGoCache = func() string {
 
 const genCacheRuns = 30
 
+// genCacheDir is the cache generation this process compiles in (set by prepareGenCache).
+var genCacheDir string
+
+// genCacheLock stays open (and share-locked) for the life of the process.
+var genCacheLock *os.File
+
+// prepareGenCache picks the current cache generation `<GenGoCache>/g<k>` (a new
+// one every genCacheRuns workspaces) and removes older generations that no
+// live process uses. Checks may run concurrently: every process holds a shared
+// lock on `g<k>.lock` while it lives and a generation is only removed under the
+// exclusive lock, so a cache is never deleted under a running build.
 func prepareGenCache() {
+	if genCacheDir != "" {
+		return
+	}
 	os.MkdirAll(GenGoCache, 0o755)
-	counter := filepath.Join(GenGoCache, "verif-runs")
 	n := 0
-	if b, err := os.ReadFile(counter); err == nil {
-		fmt.Sscan(string(b), &n)
+	if cl, err := os.OpenFile(filepath.Join(GenGoCache, "counter.lock"), os.O_CREATE|os.O_RDWR, 0o644); err == nil {
+		syscall.Flock(int(cl.Fd()), syscall.LOCK_EX)
+		counter := filepath.Join(GenGoCache, "verif-runs")
+		if b, err := os.ReadFile(counter); err == nil {
+			fmt.Sscan(string(b), &n)
+		}
+		os.WriteFile(counter, []byte(fmt.Sprint(n+1)), 0o644)
+		syscall.Flock(int(cl.Fd()), syscall.LOCK_UN)
+		cl.Close()
 	}
-	if n >= genCacheRuns {
-		os.RemoveAll(GenGoCache)
-		os.MkdirAll(GenGoCache, 0o755)
-		n = 0
+	gen := fmt.Sprintf("g%d", n/genCacheRuns)
+	if lf, err := os.OpenFile(filepath.Join(GenGoCache, gen+".lock"), os.O_CREATE|os.O_RDWR, 0o644); err == nil {
+		syscall.Flock(int(lf.Fd()), syscall.LOCK_SH)
+		genCacheLock = lf
 	}
-	os.WriteFile(counter, []byte(fmt.Sprint(n+1)), 0o644)
+	genCacheDir = filepath.Join(GenGoCache, gen)
+	os.MkdirAll(genCacheDir, 0o755)
+	entries, _ := os.ReadDir(GenGoCache)
+	for _, e := range entries {
+		name := e.Name()
+		if !e.IsDir() || name == gen || !genDirName.MatchString(name) {
+			continue
+		}
+		lf, err := os.OpenFile(filepath.Join(GenGoCache, name+".lock"), os.O_CREATE|os.O_RDWR, 0o644)
+		if err != nil {
+			continue
+		}
+		if syscall.Flock(int(lf.Fd()), syscall.LOCK_EX|syscall.LOCK_NB) == nil {
+			os.RemoveAll(filepath.Join(GenGoCache, name))
+			syscall.Flock(int(lf.Fd()), syscall.LOCK_UN)
+		}
+		lf.Close()
+	}
 }
 
 func goEnv() []string {
-	return append(os.Environ(), "GOFLAGS=-mod=mod", "GOPROXY=off", "GOSUMDB=off", "GOTOOLCHAIN=local", "GOWORK=off", "CGO_ENABLED=0", "GOCACHE="+GenGoCache)
+	prepareGenCache()
+	return append(os.Environ(), "GOFLAGS=-mod=mod", "GOPROXY=off", "GOSUMDB=off", "GOTOOLCHAIN=local", "GOWORK=off", "CGO_ENABLED=0", "GOCACHE="+genCacheDir)
 }
 
 // GoEnv is the environment for compiling generated Go code.
 func GoEnv() []string { return goEnv() }
+
+var genDirName = regexp.MustCompile(`^g[0-9]+$`)
 
 var pkgHeader = regexp.MustCompile(`^# (verifgen/\S+)`)
 
